@@ -279,11 +279,26 @@ Fixpoint dfs (depth : nat) (k : cfg) (evs : list event) (s : state) (st : sstate
       end
   end.
 
+(* A Shutdown call logs whether its context is generous (15 s: it must not expire in a run that
+   releases every blocked handler) or short.  The LTS leaves the expiry of Shutdown's context to the
+   environment (LSdTimeout); by C17_shutdown_progress a Shutdown whose connections are outside an
+   exchange returns by its own steps, so the expiry of a generous context is not a behaviour of a
+   correct server: such a log is rejected. *)
+Fixpoint timeouts_ok (evs : list val) (generous : bool) : bool :=
+  match evs with
+  | [] => true
+  | VL [VI code; _; VI a; _] :: t =>
+      if code =? 12 then timeouts_ok t (negb (a =? 0))
+      else if code =? 13 then negb (generous && (a =? 3)) && timeouts_ok t false
+      else timeouts_ok t generous
+  | _ :: t => timeouts_ok t generous
+  end.
+
 Definition run_lifecycle (a : list val) : val :=
   match a with
   | [VI kz; VL _script; VL evs] =>
       let k := cfg_of kz in
-      match parse_events evs with
+      match (if timeouts_ok evs false then parse_events evs else None) with
       | None => v_bad
       | Some l =>
           match fst (dfs (40 * 100)%nat k l init ([], (200 * 100)%nat)) with
@@ -324,9 +339,13 @@ Definition ev_serve_closed (o : obs) := match o with OServeReturn EClosed => tru
 Definition passed (k : cfg) (l : list event) (c : nat) : bool :=
   any (ev_accept c) l && (negb (on_accept k) || any (ev_cb_ok c) l).
 
-(* every accept-callback call in the log was told a count within what the log allows:
-   lo = passed connections on which the server has not called Close yet (surely live),
-   hi = passed connections whose close callback has not been seen (possibly live) *)
+(* "the accept callback is told the true number of live connections".  A connection that was let
+   through is live until it is un-counted, which the code does just before its close callback: when
+   the close callback is set, the argument must be EXACTLY 1 + the number of connections let through
+   so far whose close callback has not started (a connection whose socket is closed and whose close
+   callback is running is not live).  Without a close callback the moment of un-counting is not
+   observable; the argument must then lie between lo = passed connections on which the server has not
+   called Close yet (surely live) and hi = all passed connections not known to be gone. *)
 Fixpoint accept_counts_ok (k : cfg) (nconn : nat) (pre : list event) (rest : list event) : bool :=
   match rest with
   | [] => true
@@ -336,7 +355,8 @@ Fixpoint accept_counts_ok (k : cfg) (nconn : nat) (pre : list event) (rest : lis
            let others := filter (fun d => negb (Nat.eqb d c)) (seq 0 nconn) in
            let lo := List.length (filter (fun d => passed k pre d && negb (any (ev_close d) pre)) others) in
            let hi := List.length (filter (fun d => passed k pre d && negb (any (ev_closecb d) pre)) others) in
-           (Z.of_nat lo + 1 <=? n) && (n <=? Z.of_nat hi + 1)
+           if on_close k then n =? Z.of_nat hi + 1
+           else (Z.of_nat lo + 1 <=? n) && (n <=? Z.of_nat hi + 1)
        | _ => true
        end) && accept_counts_ok k nconn (pre ++ [e]) t
   end.
@@ -382,6 +402,9 @@ Definition verdict_lifecycle_C17 (a : list val) (o : val) : N :=
           (* no crash *)
           if negb (escaped =? 0) then VIOLATES
           else if any ev_sd_panic l then VIOLATES
+          (* graceful shutdown: a Shutdown given a generous context returns by itself (nil, or the listener's
+             close error), it does not sit until the context expires *)
+          else if negb (timeouts_ok evs false) then VIOLATES
           else
           (* accounting *)
           if negb (accept_counts_ok k nconn [] l) then VIOLATES
